@@ -34,7 +34,7 @@ def run(ctx):
         parsing = rng.random() < 0.85
         val, mm, bfo = (1, 0, True) if rng.random() < 0.4 else (rng.randrange(2), rng.choice([0, 1, 2, 3, 3]), rng.random() < 0.5)
         for qe in (0, 1, 2):
-            for handler in (True, False, "obj", "method"):
+            for handler in (True, False, "obj", "method", "ret"):
                 cases.append({"stream": s, "pf": pf, "qe": qe, "parsing": parsing, "handler": handler,
                               "validate": val, "msgmode": mm, "bf": bfo})
     obs = rp.correspond_runs(ctx, cases, "READ")
@@ -64,7 +64,7 @@ def run(ctx):
                     ctx.fail("handler-calls-differ-from-rejected-frames", dict(inp_base(s, pf, parsing), validate=o["validate"],
                                                                                msgmode=o["msgmode"], parsebitfield=o["bf"]),
                              str(want)[:300], str(lg["reports"])[:300])
-            for hk in ("obj", "method"):
+            for hk in ("obj", "method", "ret"):
                 # the kind of callable must not matter (a falsy callable object is still a handler)
                 if by[(s, pf, parsing, 1, hk)]["reports"] != lg["reports"]:
                     ctx.fail("handler-kind-matters", dict(inp_base(s, pf, parsing), handler=hk), str(lg["reports"])[:200],
